@@ -706,6 +706,94 @@ def bad_gates(draw):
             "kind": kind, "via": draw(st.sampled_from(["Gate", "Gate-ndarray", "add_gate-mutated"]))}
 
 
+# ---- numpy scalars / arrays as indices. Plain-data encoding: a value is a JSON scalar or {"np": dtype, "v": value}
+# (complex as [re, im]); an index argument is a value, a list of values, or {"wrap": kind, "items": [values]} with
+# kind in tuple / ndarray / objarray / 0d.
+
+def _npv(dtype, values):
+    return st.sampled_from(values).map(lambda v: {"np": dtype, "v": v})
+
+
+NP_BAD = st.one_of(
+    _npv("float64", [1.5, 0.5, -0.5, 1.2, 0.9, 2.7, -1.0]), _npv("float32", [2.5, 0.25, -2.0]), _npv("float16", [1.5]),
+    _npv("bool_", [True, False]), _npv("complex128", [[1, 2], [1.5, 0], [0, 1]]), _npv("complex64", [[2, 1]]),
+    _npv("str_", ["1", "q"]), _npv("int64", [-1, -3]), _npv("int8", [-2]),
+    st.sampled_from([1.5, -0.5, -2, True, "1", None]))
+# values the property says nothing about (integral-valued non-int types): generated, never asserted
+NP_ODD = st.one_of(_npv("float64", [2.0, 0.0]), _npv("float32", [1.0]), _npv("int64", [0, 3]), _npv("uint8", [2]), _npv("complex128", [[1, 0]]),
+                   st.sampled_from([1.0, 4.0]))
+
+
+@st.composite
+def np_index_cases(draw):
+    nm = draw(st.sampled_from(ONE_T + TWO_T))
+    nt = 2 if nm in TWO_T else 1
+    ctrl = nm[0] == "C"
+    idx = list(draw(st.permutations(list(range(7)))))
+    t = idx[:nt]
+    c = idx[nt:nt + draw(st.integers(1, 2))] if ctrl else None
+    n_sub = draw(st.integers(1, 2))
+    for _ in range(n_sub):
+        val = draw(NP_BAD if draw(st.integers(0, 4)) else NP_ODD)
+        if ctrl and draw(st.booleans()):
+            c[draw(st.integers(0, len(c) - 1))] = val
+        else:
+            t[draw(st.integers(0, nt - 1))] = val
+
+    def wrap(items):
+        kind = draw(st.sampled_from(["scalar", "list", "list", "tuple", "ndarray", "objarray", "0d"]))
+        if kind in ("scalar", "0d") and len(items) != 1:
+            kind = "list"
+        if kind == "scalar":
+            return items[0] if items[0] is not None else items      # control=None would mean "no control"
+        if kind == "list":
+            return items
+        return {"wrap": kind, "items": items}
+    return {"n": nm, "t": wrap(t), "c": wrap(c) if c is not None else None, "via": draw(st.sampled_from(["Gate", "Gate", "circuit"]))}
+
+
+def dec_val(x):
+    if isinstance(x, dict):
+        dt, v = x["np"], x["v"]
+        if dt.startswith("complex"):
+            return getattr(np, dt)(complex(v[0], v[1]))
+        return getattr(np, dt)(v)
+    return x
+
+
+def dec_index(spec):
+    """-> (object handed to Gate, list of the index values Gate is given once containers are opened by numpy/python)"""
+    if isinstance(spec, dict) and "wrap" in spec:
+        items = [dec_val(x) for x in spec["items"]]
+        k = spec["wrap"]
+        if k == "tuple":
+            return tuple(items), items
+        if k == "0d":
+            a = np.array(items[0])
+            return a, [a.item()]
+        a = np.array(items, dtype=object) if k == "objarray" else np.array(items)
+        return a, a.tolist()
+    if isinstance(spec, list):
+        items = [dec_val(x) for x in spec]
+        return items, items
+    v = dec_val(spec)
+    return v, [v]
+
+
+def index_class(e):
+    """'good' (python int >= 0), 'bad' (the property demands rejection: negative / non-integer), 'odd' (integral-valued
+    value of a non-int type: nothing stated)."""
+    if isinstance(e, (bool, np.bool_)) or e is None or isinstance(e, (str, bytes)):
+        return "bad"
+    if isinstance(e, (int, np.integer)):
+        return "bad" if e < 0 else ("good" if type(e) is int else "odd")
+    if isinstance(e, (float, np.floating)):
+        return "odd" if (np.isfinite(e) and float(e) == int(e) and e >= 0) else "bad"
+    if isinstance(e, (complex, np.complexfloating)):
+        return "odd" if (e.imag == 0 and np.isfinite(e.real) and e.real == int(e.real) and e.real >= 0) else "bad"
+    return "bad"
+
+
 @part("validation", quick=1600, thorough=100000)
 def validation_part(ctx):
     from tangelo.linq import Gate, Circuit
@@ -751,7 +839,42 @@ def validation_part(ctx):
             return True, {kind, "via-Gate"}
         raise Fail(f"Gate({case['n']!r}, {case['t']!r}, control={case['c']!r}) was accepted ({kind}): {g!r}", sig=f"gate:accepted:{kind}")
 
-    ctx.search("bad_gate", bad_gates(), body, frac=0.7)
+    ctx.search("bad_gate", bad_gates(), body, frac=0.4)
+
+    def body_np(case):
+        try:
+            T, telems = dec_index(case["t"])
+            C, celems = dec_index(case["c"]) if case["c"] is not None else (None, [])
+        except (ValueError, TypeError) as e:          # raised by numpy while building the argument, not by Tangelo
+            raise Skip("numpy cannot build this argument")
+        classes = [index_class(e) for e in telems + celems]
+        zero_d = any(isinstance(x, np.ndarray) and x.ndim == 0 for x in (T, C))
+        kw = {"parameter": 0.5} if case["n"] in ROT else {}
+        if C is not None:
+            kw["control"] = C
+        labels = {f"{type(e).__name__}" for e, k in zip(telems + celems, classes) if k != "good"}
+        for spec, pos in ((case["t"], "target"), (case["c"], "control")):
+            if isinstance(spec, dict) and "wrap" in spec:
+                labels.add(f"{pos}-in-{spec['wrap']}")
+            elif spec is not None:
+                labels.add(f"{pos}-{'list' if isinstance(spec, list) else 'scalar'}")
+        try:
+            g = Gate(case["n"], T, **kw)
+        except (ValueError, TypeError):
+            return "bad" in classes, labels | {"rejected"}
+        if "bad" in classes:
+            raise Fail(f"Gate({case['n']!r}, {T!r}, control={C!r}) was accepted although it has a negative / non-integer index "
+                       f"({[repr(e) for e, k in zip(telems + celems, classes) if k == 'bad']}): built {g!r}",
+                       sig="gate:accepted:numpy-bad-index")
+        if case["via"] == "circuit" and not zero_d:
+            # whatever was accepted must be a well-formed gate: python-int indices, consistent circuit metadata
+            if any(type(q) is not int or q < 0 for q in list(g.target) + list(g.control or [])):
+                raise Fail(f"accepted gate {g!r} stores non-int indices", sig="gate:stored:non-int-index")
+            c = Circuit([g], n_qubits=8)
+            check_circuit(c, m_new([S.gate_to_rec(g)], 8), "validation", "operand", 0)
+        return False, labels | {"accepted-unasserted" if "odd" in classes else "accepted-valid"}
+
+    ctx.search("bad_index_numpy", np_index_cases(), body_np, frac=0.3)
 
     # out-of-range indices on fixed-width circuits: constructor and add_gate
     @st.composite
